@@ -24,6 +24,8 @@ def show(v, ty, recs=None):
         fields = RECS[ty[1]].fields
         vals, tys = [v[f] for f in fields], list(fields.values())
         return show(vals[0], tys[0]) if len(vals) == 1 else show(tuple(vals), ("T", *tys))
+    if isinstance(ty, tuple) and ty[0] == "D":
+        ty = ("L", ("T", ty[1], ty[2]))
     if isinstance(ty, tuple) and ty[0] == "E":
         return "err " + v[1] if isinstance(v, tuple) and len(v) == 2 and v[0] == "err" else show(v, ty[1])
     if ty == "Int":
@@ -52,6 +54,8 @@ def lit(v, ty, recs):
         return str(int(v)) if v >= 0 else f"({int(v)})"
     if ty == "Bool":
         return "true" if v else "false"
+    if ty[0] == "D":
+        ty = ("L", ("T", ty[1], ty[2]))
     if ty[0] == "L":
         return "[" + ", ".join(lit(x, ty[1], recs) for x in v) + "]"
     if ty[0] == "T":
@@ -148,8 +152,60 @@ def _grid_cases():
             "OrthogonalVonNeumannGrid._connect_cells_nd": (gen_cells, call_cells("OrthogonalVonNeumannGrid"))}
 
 
+# ------------------------------------------------------------------ C09: space.py
+def _legacy_cases():
+    core.import_mesa()
+    from mesa.space import SingleGrid
+
+    def rec(a):
+        return {"width": a["w"], "height": a["h"], "torus": a["torus"], "_neighborhood_cache": a.get("cache", [])}
+
+    def dims(rng):
+        return {"w": rng.choice([1, 1, 2, 3, 4, 5, 7]), "h": rng.choice([1, 2, 2, 3, 4, 6]), "torus": rng.random() < 0.5}
+
+    def pos(rng, a, far=0.25):
+        if rng.random() < far:
+            return (rng.randrange(-9, a["w"] + 9), rng.randrange(-9, a["h"] + 9))
+        return (rng.randrange(a["w"]), rng.randrange(a["h"]))
+
+    def grid(a):
+        g = SingleGrid(a["self"]["width"], a["self"]["height"], a["self"]["torus"])
+        # the cache as the association list the translation uses: newest binding first
+        g._neighborhood_cache = {k: tuple(v) for k, v in reversed(a["self"]["_neighborhood_cache"])}
+        return g
+
+    def gen_pos(rng):
+        a = dims(rng)
+        return {"self": rec(a), "pos": pos(rng, a, 0.5)}
+
+    def gen_nb(rng):
+        a = dims(rng)
+        p = pos(rng, a, 0.1)
+        key = (p, rng.random() < 0.5, rng.random() < 0.5, rng.choice([0, 1, 1, 2, 2, 3, 5]))
+        cache, seen = [], set()
+        for _ in range(rng.choice([0, 0, 1, 3])):
+            k = key if rng.random() < 0.3 else (pos(rng, a, 0.0), rng.random() < 0.5, rng.random() < 0.5, rng.choice([1, 2]))
+            if k not in seen:
+                seen.add(k)
+                cache.append((k, [pos(rng, a, 0.0) for _ in range(rng.randrange(0, 4))]))   # any stored value is returned as is
+        a["cache"] = cache
+        return {"self": rec(a), "pos": key[0], "moore": key[1], "include_center": key[2], "radius": key[3]}
+
+    def call_nb(a):
+        g = grid(a)
+        try:
+            res = [tuple(c) for c in g.get_neighborhood(a["pos"], a["moore"], a["include_center"], a["radius"])]
+        except Exception as e:       # noqa: BLE001
+            res = map_exc(e)
+        return (res, [(k, list(v)) for k, v in reversed(g._neighborhood_cache.items())])
+
+    return {"_Grid.out_of_bounds": (gen_pos, lambda a: grid(a).out_of_bounds(a["pos"])),
+            "_Grid.torus_adj": (gen_pos, lambda a: tuple(grid(a).torus_adj(a["pos"]))),
+            "_Grid.get_neighborhood": (gen_nb, call_nb)}
+
+
 RECS = {r.name: r for g in XR.GROUPS.values() for r in g["recs"]}
-SUITES = {"Cells": _grid_cases}
+SUITES = {"Cells": _grid_cases, "Legacy": _legacy_cases}
 
 
 # ------------------------------------------------------------------ runner
@@ -165,6 +221,8 @@ def run(ctx, prop):
             node, _ = py2lean.source_info(core.REPO, fn)
             _, _, rty = py2lean.Translator(fn, recs, done).translate(node)
             done[fn.qualname.split(".")[-1]] = (fn, rty)
+            if fn.qualname not in XR.REGISTRY[prop]["functions"]:
+                continue
             if fn.qualname not in suite:
                 ctx.notes.append(f"xlate selftest: no cases for {fn.qualname}")
                 continue
